@@ -570,7 +570,32 @@ fn builtin_structs(_env: &Env, st: &mut Stats) -> Vec<Failure> {
             let unknown = matches!(&got, Ok(Ok(Err(e))) if crate::imp::classify(e).class == "UnknownFunction");
             let other_name = if sig.name == "type" { "length" } else { "type" };
             let still = catch(std::panic::AssertUnwindSafe(|| rt.compile(&format!("{}(xs)", other_name)).map(|c| c.search(Variable::from_json("{\"xs\":[1,2]}").unwrap()).map(|v| v.to_string()))));
-            let still_ok = matches!(&still, Ok(Ok(Ok(v))) if v == "\"array\"" || v == "2");
+            let mut still_ok = matches!(&still, Ok(Ok(Ok(v))) if v == "\"array\"" || v == "2");
+            // every other built-in is still registered (whatever it says about this argument, it is
+            // not an unknown function) and still is the function of that name
+            for other in SIGS {
+                if other.name == sig.name {
+                    continue;
+                }
+                st.eval();
+                let call = format!("{}(@)", other.name);
+                let on_this = catch(std::panic::AssertUnwindSafe(|| rt.compile(&call).map(|c| c.search(Variable::from_json("[3, 1]").unwrap()).map(|v| v.to_string()).map_err(|e| crate::imp::classify(&e).class))));
+                let on_default = catch(std::panic::AssertUnwindSafe(|| jmespath::compile(&call).map(|c| c.search(Variable::from_json("[3, 1]").unwrap()).map(|v| v.to_string()).map_err(|e| crate::imp::classify(&e).class))));
+                let same = match (&on_this, &on_default) {
+                    (Ok(Ok(a)), Ok(Ok(b2))) => a == b2,
+                    _ => false,
+                };
+                if !same {
+                    still_ok = false;
+                    fails.push(Failure::new(
+                        "builtin-structs",
+                        "deregistration-disturbs-another-builtin",
+                        format!("after register_builtin_functions(); deregister_function({:?}): {} gives {:?} but on the default runtime {:?}", sig.name, call, on_this.map(|r| r.map_err(|e| e.to_string())), on_default.map(|r| r.map_err(|e| e.to_string()))),
+                        json!({"expression": call, "runtime": format!("register_builtin_functions(); deregister_function({:?})", sig.name)}),
+                    ));
+                    break;
+                }
+            }
             if !unknown || !still_ok {
                 fails.push(Failure::new(
                     "builtin-structs",
